@@ -13,21 +13,24 @@ structure CaseIn where
   spd : Nat := 6
   bpm : Nat := 125
   xxo : List Nat := []
-  pats : Array (List Fx) := #[]
+  pats : Array (List RawFx) := #[]
   maxFrames : Nat := 200000
+  /-- `QUIRK_NOBPM || p->flags & XMP_FLAGS_VBLANK` of the dumped (default) configuration -/
+  speedOnly : Bool := false
 
-def parseFx (code : String) (p : Nat) : Fx :=
+def parseFx (code : String) (p : Nat) : RawFx :=
   match code with
-  | "s" => .speed p
-  | "t" => .tempo p
-  | "d" => .delay p
-  | "j" => .jump p
-  | "r" => .rowdelay p
-  | _ => .none
+  | "s" => .fx (.speed p)
+  | "t" => .fx (.tempo p)
+  | "d" => .fx (.delay p)
+  | "j" => .fx (.jump p)
+  | "r" => .fx (.rowdelay p)
+  | "f" => .fspeed p
+  | _ => .fx .none
 
-def parsePat (nrows : Nat) (items : List String) : List Fx :=
-  let base : Array Fx := Array.replicate nrows Fx.none
-  let a := items.foldl (fun (a : Array Fx) it =>
+def parsePat (nrows : Nat) (items : List String) : List RawFx :=
+  let base : Array RawFx := Array.replicate nrows (RawFx.fx Fx.none)
+  let a := items.foldl (fun (a : Array RawFx) it =>
     match it.splitOn ":" with
     | [r, c, p] => a.setIfInBounds (r.toNat?.getD 0) (parseFx c (p.toNat?.getD 0))
     | _ => a) base
@@ -61,8 +64,10 @@ def groupRows (fs : List PlaySt) : Array RowG := Id.run do
   return out
 
 def runCase (a : CaseIn) : IO Unit := do
-  let m : LinMod := { xxo := a.xxo, pats := a.pats.toList, rst := a.rst, spd := a.spd, bpm := a.bpm,
-                      marker := a.marker }
+  -- `nobpm` of the raw module := the dumped configuration's `speedOnly`; its scan and player read flag `false`
+  let rm : RawMod := { xxo := a.xxo, pats := a.pats.toList, rst := a.rst, spd := a.spd, bpm := a.bpm,
+                       marker := a.marker, nobpm := a.speedOnly }
+  let m : LinMod := rm.decode false
   let sc := scanSequences m
   -- the module class of C18_scan_eq_play (its only hypotheses are `ModWF m` and `sc.ok`)
   IO.println s!"modwf {modWFb m}"
@@ -120,6 +125,33 @@ def runCase (a : CaseIn) : IO Unit := do
       idx := idx + 1
     IO.println s!"rowhash {h}"
     k := k + 1
+  -- the rescan after XMP_PLAYER_CFLAGS |= XMP_FLAGS_VBLANK: the same raw module, scanned with the flag set
+  let mv := rm.decode true
+  let same := decide (mv.pats = m.pats)        -- no Fxx >= 0x20 (or QUIRK_NOBPM): the flag changes nothing
+  let scv := if same then sc else scanSequences mv
+  let capv := min a.maxFrames 20000
+  if scv.ok then
+    IO.println s!"vscan nseq {scv.seqs.length}"
+    let mut kv := 0
+    for r in scv.seqs do
+      IO.println s!"vseq {kv} ep {r.ep} dur {r.res.ret} end {r.res.endOrd} {r.res.endRow} {r.res.num}"
+      if same then
+        IO.println "vrecsagree same"
+        IO.println "xrecsagree same"
+      else
+        -- the simulation theorem with the SAME flag on both sides, evaluated
+        let ev := rm.env true true kv
+        let fsv := ev.run capv
+        if fsv.length ≥ capv then IO.println "vrecsagree capped"
+        else IO.println s!"vrecsagree {decide (rowRecs fsv = r.res.trace)}"
+        -- … and with the player reading the other flag value (what a flag-word mix-up amounts to)
+        let ex := rm.env true false kv
+        let fsx := ex.run capv
+        if fsx.length ≥ capv || fsv.length ≥ capv then IO.println "xrecsagree capped"
+        else IO.println s!"xrecsagree {decide (rowRecs fsx = r.res.trace)}"
+      kv := kv + 1
+  else
+    IO.println "vscan fail"
   IO.println "endcase"
 
 partial def loop (h : IO.FS.Stream) (a : CaseIn) : IO Unit := do
@@ -129,7 +161,8 @@ partial def loop (h : IO.FS.Stream) (a : CaseIn) : IO Unit := do
   match ws with
   | "mod" :: mk :: rst :: spd :: bpm :: rest =>
     loop h { marker := mk == "1", rst := rst.toNat?.getD 0, spd := spd.toNat?.getD 6, bpm := bpm.toNat?.getD 125,
-             maxFrames := (rest.head?.bind String.toNat?).getD 200000 }
+             maxFrames := (rest.head?.bind String.toNat?).getD 200000,
+             speedOnly := (rest.drop 1).head? == some "1" }
   | "xxo" :: os => loop h { a with xxo := os.filterMap String.toNat? }
   | "pat" :: _ :: nrows :: items => loop h { a with pats := a.pats.push (parsePat (nrows.toNat?.getD 0) items) }
   | ["end"] => runCase a; loop h {}
